@@ -861,10 +861,10 @@ func c04Exec(c c04Case, x *pbt.Ctx) error {
 
 func TestC04(t *testing.T) {
 	rule := "ledgergen values, (A) built through the constructors with suffix fields set, (B) decoded from bytes of the independent encoder (suffixes, asset versions != 1): encode succeeds, decode(encode(v)) == v field-wise with nil == empty, SerializedSize == byte length, id/hash equal, re-encoding byte-identical; via MarshalText/UnmarshalText, WriteTo, JSON, the three block serialisation flags, bc.Hash/AssetID text+JSON, and the netsync/consensus message wrappers through the real wire codec and decodeMessage; integers above 2^63-1 are outside the domain (encoders refuse them); non-trivial = non-empty suffix, vote output with state data, >= 2 supLinks, an empty-but-non-nil field, or asset version != 1; distinct by canonical description"
-	pbt.Run(t, "C04", rule, pbt.Options{Sub: "tx", Checks: pbt.Per(3000, 300000),
+	pbt.Run(t, "C04", rule, pbt.Options{Sub: "tx", Checks: pbt.Per(6000, 1200000),
 		MinClass: map[string]int{"trait:suffix": 50, "decoded:ok": 500}}, c04GenTx, c04Exec)
-	pbt.Run(t, "C04", rule, pbt.Options{Sub: "header", Checks: pbt.Per(1500, 100000)}, c04GenHeader, c04Exec)
-	pbt.Run(t, "C04", rule, pbt.Options{Sub: "block", Checks: pbt.Per(600, 50000)}, c04GenBlock, c04Exec)
+	pbt.Run(t, "C04", rule, pbt.Options{Sub: "header", Checks: pbt.Per(2000, 300000)}, c04GenHeader, c04Exec)
+	pbt.Run(t, "C04", rule, pbt.Options{Sub: "block", Checks: pbt.Per(1000, 150000)}, c04GenBlock, c04Exec)
 	pbt.Run(t, "C04", rule, pbt.Options{Sub: "text", Checks: pbt.Per(300, 20000)}, c04GenText, c04Exec)
-	pbt.Run(t, "C04", rule, pbt.Options{Sub: "p2p", Checks: pbt.Per(300, 30000)}, c04GenP2P, c04Exec)
+	pbt.Run(t, "C04", rule, pbt.Options{Sub: "p2p", Checks: pbt.Per(500, 100000)}, c04GenP2P, c04Exec)
 }
